@@ -90,6 +90,32 @@ def task(logdir, call_no, i, fails, delay, exc="TaskFail", extra=None):
     return (call_no, i, FLAG.get("k"))
 
 
+PLUG_SRC = """
+def plug(logdir, call_no, i):
+    fd = os.open(os.path.join(logdir, "exec.log"), os.O_WRONLY | os.O_APPEND | os.O_CREAT)
+    os.write(fd, ("%d %d %d\\n" % (call_no, i, os.getpid())).encode())
+    os.close(fd)
+    return (call_no, i, K * 1000 + STATE[0])
+"""
+
+
+def make_plugins(raw=False):
+    """two functions defined by value (not importable) under the SAME module name but in different global namespaces
+    (plug-in scripts loaded with runpy / exec), each reading a constant and a mutable cell of its own namespace; they
+    are wrapped once with joblib.wrap_non_picklable_objects and the same wrappers are used for every call"""
+    from joblib import wrap_non_picklable_objects
+    plugs, states = [], []
+    for K in (1, 2):
+        state = [0]
+        ns = {"K": K, "__name__": "verif_plugin", "os": os, "STATE": state}
+        exec(PLUG_SRC, ns)
+        # raw: shipped as they are (loky pickles tasks with cloudpickle: both functions go through ONE pickler per batch)
+        plugs.append(ns["plug"] if raw else wrap_non_picklable_objects(ns["plug"]))
+        states.append(state)
+    return plugs, states
+
+
+PLUGINS = [None]
 PULLS = {}
 FASTFAIL = [False]
 AHEAD = [None]
@@ -107,6 +133,12 @@ def gen_input(logdir, call_no, N, tfail, ifail, rng, exc="TaskFail"):
             # the failure is immediate, the other tasks take their time, and the first one keeps an ordered caller waiting
             d = 0 if i in tfail else (1.5 if i == 0 else 0.05)
         PULLS[call_no] = i + 1
+        if PLUGINS[0] is not None:
+            plugs, states = PLUGINS[0]
+            for st in states:
+                st[0] = 10 * call_no          # the state the functions capture changes between the calls
+            yield delayed(plugs[i % 2])(logdir, call_no, i)
+            continue
         if AHEAD[0] is not None:
             # how far the consumption of the input is ahead of the completed tasks, at every pull
             try:
@@ -188,6 +220,7 @@ def run(c):
     SLOW[0] = c.get("slow", 0)
     FASTFAIL[0] = bool(c.get("fastfail"))
     STATS_LEAK[0] = bool(c.get("stats_leak"))
+    PLUGINS[0] = make_plugins(c.get("plugins") == "raw") if c.get("plugins") else None
     AHEAD[0] = {} if c.get("stats_leak") else None
     PULLS.clear()
     logdir = tempfile.mkdtemp(prefix="verif-m1real-")
